@@ -770,7 +770,9 @@ def _one_export(case, exp, reserved, ctx):
     raise_reserved = bool(exp.get("raise_reserved", True))
     objs = _build(case, pmode)
     handle = io.StringIO()
-    _, exc = ctx.call(collection_to_gff3, objs, handle, add_sequences=fasta, chromosome_relative_coordinates=chromrel,
+    # `collections` is documented as an Iterable: some exports hand over a one-shot generator instead of the list
+    as_gen = (len(mode) + len(objs) + sum(len(getattr(o, "genes", []) or []) for o in objs)) % 3 == 0
+    _, exc = ctx.call(collection_to_gff3, (o for o in objs) if as_gen else objs, handle, add_sequences=fasta, chromosome_relative_coordinates=chromrel,
                       raise_on_reserved_attributes=raise_reserved)
     if reserved and raise_reserved:
         ctx.check("gff.reserved-attrs", isinstance(exc, GFF3ExportException), key=("refusal", type(exc).__name__ if exc else "exported"), mode=mode,
